@@ -235,7 +235,7 @@ package timeutil
 //@ func CalIntervalRatio
 //@   prop C13
 //@   arith math
-//@   requires queryInterval >= 0 && storageInterval >= 0 && queryInterval <= 1000000000000 && storageInterval <= 1000000000000
+//@   requires queryInterval >= 0 && storageInterval >= 0 && queryInterval <= 10000000000000 && storageInterval <= 10000000000000
 //@   ensures result >= 1
 //@   ensures (storageInterval > 0 && queryInterval >= storageInterval) ==> (int64(result) * storageInterval <= queryInterval && queryInterval < int64(result) * storageInterval + storageInterval)
 //@   ensures (storageInterval == 0 || queryInterval < storageInterval) ==> result == 1
